@@ -1,2 +1,3 @@
 import TsProofs.Properties.C20
 import TsProofs.Properties.C17
+import TsProofs.Properties.C08
